@@ -414,9 +414,21 @@ pub fn check(bc: &BCase, st: &mut Stats) -> CheckResult {
     drop(h);
     let mut proc = proc;
     if bc.kill_restart {
+        // SIGKILL; in half of the cases the restart happens while the killed process has not been
+        // reaped yet (its pid still exists, as it would under a slow supervisor)
         let _ = proc.child.kill();
-        let _ = proc.child.wait();
-        drop(proc);
+        let unreaped = bc.salt % 4 >= 2;
+        if !unreaped {
+            let _ = proc.child.wait();
+        } else {
+            // make sure the signal has been delivered (the listening sockets are closed)
+            let t0 = Instant::now();
+            while t0.elapsed() < Duration::from_secs(5) && proc.addrs.iter().any(|a| std::net::TcpStream::connect_timeout(a, Duration::from_millis(100)).is_ok()) {
+                std::thread::sleep(Duration::from_millis(10));
+            }
+            st.label("c17:restart-before-the-killed-process-is-reaped");
+        }
+        let _old = proc;
         // the operator may restart with another allow-list: the restarted server enforces
         // exactly the new one, also against clients that synced under the old one
         let mut bc2 = bc.clone();
@@ -429,7 +441,12 @@ pub fn check(bc: &BCase, st: &mut Stats) -> CheckResult {
             None => true,
             Some((k, _)) => clients.iter().take(k as usize).any(|x| *x == c),
         };
-        let proc2 = start(&bin, bc, &dpath, &clients)?;
+        // the same binary came up with this very configuration moments ago: not coming up again
+        // on the directory it was killed on is the server's doing, not the environment's
+        let proc2 = start(&bin, bc, &dpath, &clients).map_err(|f| match f {
+            Fail::Inconclusive(m) if bc.restart_allow.is_none() => Fail::Violation(format!("{what}: after being killed{}, the server does not come up again on the same data directory: {m}", if unreaped { " (and before the killed process was reaped)" } else { "" })),
+            o => o,
+        })?;
         let drv2 = ext_driver(&dpath, &cfg, proc2.addrs.clone())?;
         let mut or2 = Oracles::default();
         or2.c01 = true;
